@@ -377,7 +377,7 @@ let compare_strings idx st report =
     let observed = obs () in
     if !coq_budget > 0 then begin
       (match observed with
-       | ("net", t) :: _ when t <> "<panic>" && String.length t < 60000 ->
+       | ("net", t) :: _ when t <> "<panic>" && String.length t < 60000 && List.length n.nw_ent.e_desc < 2000 ->
          decr coq_budget;
          Buffer.add_string coq_buf (Printf.sprintf "Definition s_%s : snet := %s.\nDefinition t_%s : string := %s.\n" idx (c_snet n) idx (q t));
          coq_checks := Printf.sprintf "check_string s_%s t_%s" idx idx :: !coq_checks
@@ -424,7 +424,7 @@ let () =
        let rec obs () = match pop st with "endobs" -> [] | l -> l :: obs () in
        let observed = obs () in
        incr cases;
-       if !coq_budget > 0 && not obs_err && List.length observed < 400
+       if !coq_budget > 0 && not obs_err && List.length observed < 400 && List.length net.nt_desc < 2000
           && not (List.exists (function Para t -> List.mem '\n' t | _ -> false) (blocks net)) then begin
          Buffer.add_string coq_buf (Printf.sprintf "Definition n_%s : net := %s.\nDefinition o_%s : list block := %s.\n" idx (c_net net) idx (lst c_block_of_obs observed));
          coq_checks := Printf.sprintf "check_md n_%s o_%s" idx idx :: !coq_checks
